@@ -4,6 +4,7 @@ import (
 	"fmt"
 	"go/types"
 	"sort"
+	"strings"
 
 	"golang.org/x/tools/go/ssa"
 )
@@ -95,8 +96,20 @@ func (x *Exec) loopHead(fr *Frame, li *loopInfo, st *State) *State {
 	} else {
 		heaps, allocs = x.loopTargets(li)
 	}
-	for _, h := range heaps {
-		ns.Heaps[h] = x.declare(h+"@L", x.S.heaps[h])
+	if spec != nil && spec.ModGiven && !x.discover {
+		// loop frame given: heaps keep their pre-loop value except at the named cells;
+		// that nothing else changes is an obligation at every back edge
+		env0 := x.envAt(fr, b, st)
+		env0.phiOverride = entryPhi
+		li.excl = x.modCells(env0, spec.Modifies)
+		li.written = heaps
+		for _, mt := range spec.Modifies {
+			x.havocTarget(env0, ns, mt)
+		}
+	} else {
+		for _, h := range heaps {
+			ns.Heaps[h] = x.declare(h+"@L", x.S.heaps[h])
+		}
 	}
 	if allocs {
 		na := x.declare("alloc@L", "Int")
@@ -151,6 +164,29 @@ func (x *Exec) loopBack(fr *Frame, li *loopInfo, from *ssa.BasicBlock) {
 	for k, inv := range spec.Invariants {
 		t := x.evalBool(env, inv.E)
 		x.oblige("inv-keep", fmt.Sprintf("inv#%d.%d/keep@b%d", li.ordinal, k+1, x.backOrdinal(fr, li, from)), g, t, "loop invariant preserved: "+inv.Text, b.Instrs[0].Pos(), false)
+	}
+	if spec.ModGiven && !x.discover {
+		head := fr.headSt[b]
+		for _, h := range li.written {
+			cur, ok1 := st.Heaps[h]
+			old, ok2 := head.Heaps[h]
+			if !ok1 || !ok2 || cur.S == old.S {
+				continue
+			}
+			srt := x.S.heaps[h]
+			var goal Term
+			if strings.HasPrefix(srt, "(Array Int ") {
+				conds := []Term{{fmt.Sprintf("(<= r!lf %s)", head.Alloc.S), "Bool"}}
+				for _, r := range li.excl[h] {
+					conds = append(conds, mkNot(mkEq(Term{"r!lf", "Int"}, r)))
+				}
+				goal = Term{fmt.Sprintf("(forall ((r!lf Int)) (=> %s (= (select %s r!lf) (select %s r!lf))))", mkAnd(conds...).S, cur.S, old.S), "Bool"}
+			} else {
+				goal = mkEq(cur, old)
+			}
+			x.oblige("frame", fmt.Sprintf("lframe#%d.%s@b%d", li.ordinal, h, x.backOrdinal(fr, li, from)), g, goal,
+				"loop frame: "+h+" changes only at the cells named by the loop's modifies clause", b.Instrs[0].Pos(), false)
+		}
 	}
 	if spec.Decreases != nil {
 		headEnv := x.envAt(fr, b, fr.headSt[b])
@@ -280,4 +316,53 @@ func (x *Exec) lookupLocal(fr *Frame, name string, at *ssa.BasicBlock, st *State
 func (x *Exec) backEdgeOf(fr *Frame, b *ssa.BasicBlock) bool {
 	_, ok := fr.loops[b]
 	return ok
+}
+
+// modCells resolves modifies targets to (heap, excluded reference) pairs.
+func (x *Exec) modCells(env *SpecEnv, mts []ModTarget) map[string][]Term {
+	ex := map[string][]Term{}
+	for _, mt := range mts {
+		e := mt.E
+		if ix, ok := e.(EIndex); ok {
+			if id, ok := ix.I.(EIdent); ok && id.Name == "*" {
+				v := x.evalVal(env, ix.X)
+				sl, ok := v.Typ.Underlying().(*types.Slice)
+				if !ok {
+					panic(specErr("modifies %s[*]: not a slice", mt.Text))
+				}
+				hn, _ := x.S.ElemHeapT(sl.Elem())
+				ex[hn] = append(ex[hn], Term{app("s_ref", v.T), "Int"})
+				continue
+			}
+		}
+		switch t := e.(type) {
+		case EField:
+			base := x.evalVal(env, t.X)
+			pt := pointee(base.Typ)
+			if pt == nil {
+				panic(specErr("modifies %s: base is not a pointer", mt.Text))
+			}
+			su, _ := asStruct(pt)
+			idx, _ := findField(su, t.Name)
+			a := x.fieldAddr(base, pt, idx)
+			hn, _, _ := x.rootHeap(a)
+			ex[hn] = append(ex[hn], a.Ref)
+		case EUnary:
+			base := x.evalVal(env, t.X)
+			pt := pointee(base.Typ)
+			if su, ok := asStruct(pt); ok {
+				ss := x.S.SortOf(pt)
+				for i := 0; i < su.NumFields(); i++ {
+					hn, _ := x.S.FieldHeap(ss, su, i)
+					ex[hn] = append(ex[hn], base.T)
+				}
+			} else {
+				hn, _ := x.S.CellHeapT(pt)
+				ex[hn] = append(ex[hn], base.T)
+			}
+		default:
+			panic(specErr("unsupported modifies target %s", mt.Text))
+		}
+	}
+	return ex
 }
